@@ -469,6 +469,50 @@ def hash_cases(rng, tier):
                "force_flags": [["--hash-records"], ["--no-hash-records"], ["--no-hash-records", "--records-per-batch", "1"]]}
 
 
+# ---------------------------------------------------------------- verbs of the same kind side by side, preempted mid-function
+
+SAME_KIND = [
+    # grouping verbs (build grouping keys from the same helpers)
+    [lambda r: ["count-similar", "-g", r.choice(["a", "b", "a,b"]), "-o", "n%d" % r.randint(1, 9)], lambda r: ["cat", "-n", "-g", r.choice(["a", "a,b"])],
+     lambda r: ["head", "-n", "2", "-g", r.choice(["a", "b"])], lambda r: ["step", "-a", "counter,rsum", "-f", "i", "-g", r.choice(["a", "b"])],
+     lambda r: ["stats1", "-a", "count,sum", "-f", "i", "-g", r.choice(["a", "a,b"])], lambda r: ["top", "-n", "2", "-f", "x", "-g", "a", "-a"],
+     lambda r: ["uniq", "-g", r.choice(["a", "a,b"]), "-c"], lambda r: ["count-distinct", "-f", r.choice(["a", "b,a"])],
+     lambda r: ["fill-down", "-f", "b"], lambda r: ["decimate", "-n", "2", "-g", "a"], lambda r: ["tail", "-n", "2", "-g", "b"],
+     lambda r: ["merge-fields", "-k", "-a", "sum", "-c", "x,y", "-o", "m%d" % r.randint(1, 9)], lambda r: ["fraction", "-f", "i", "-g", "a"],
+     lambda r: ["put", "-q", "@s[$a][$b] = $i; end { emit @s, \"a\", \"b\" }"], lambda r: ["nest", "--ivar", ";", "-f", "b"],
+     lambda r: ["sec2gmt", "i"], lambda r: ["group-by", "a"], lambda r: ["count", "-g", "b"]],
+    # DSL stages (interpreter state, regex captures, type inference, number formatting)
+    [lambda r: ["put", r.choice(["$s = sub($a, \"(.)(.)\", \"\\2\\1\")", "if ($a =~ \"^(.)(.*)$\") { $c = \"\\2\\1\" }", "$f = fmtnum($x, \"%.2f\") . \":\" . fmtifnum($i, \"%05d\")",
+                                "$t = typeof($i) . typeof($x) . typeof($b)", "$k = strlen($a . $b) + $i * 2", "$j = joink($*, \",\")", "$m = format_values is absent ? 1 : 2" if False else "$m = asserting_not_null($a)",
+                                "$h = md5($a) . crc32($b)", "$u = toupper($a) . capitalize($b)", "$d = sec2gmt($i * 86400)", "$sp = splitax($a, \"a\")[1]",
+                                "$z = $x . \"\"; $w = $z + 1", "$n = NR . \":\" . NF", "func f(s) { return s . s } $g = f($a)"])],
+     lambda r: ["filter", r.choice(["$a =~ \"^[pew]\"", "$x > 0.2 && $i < 39", "strlen($b) >= 0", "is_string($a)"])],
+     lambda r: ["sec2gmt", "-3", "i"], lambda r: ["format-values", "-n", "-f", "%.3f"], lambda r: ["gsub", "-f", "a,b", "[aeiou]", "_"], lambda r: ["sub", "-f", "a", "^(.)", "<\\1>"],
+     lambda r: ["case", "-u", "-f", "a,b"], lambda r: ["having-fields", "--any-matching", "^[ab]$"], lambda r: ["rename", "-r", "^(.)$,f_\\1"], lambda r: ["cut", "-r", "-f", "^[abix]"],
+     lambda r: ["sort-within-records"], lambda r: ["fill-empty"], lambda r: ["json-stringify", "-f", "a"], lambda r: ["reorder", "-e", "-f", "a"]],
+]
+
+
+def race_cases(rng, tier):
+    """Chains of 2-4 stages of the same kind (grouping verbs; DSL / regex / formatting stages), small batches, and
+    schedules that preempt goroutines at loop heads: unsynchronised state shared between verb goroutines shows as
+    output that depends on the schedule."""
+    i = 0
+    while True:
+        i += 1
+        r = rng.fork("race", i)
+        pool = r.choice(SAME_KIND)
+        verbs = [r.choice(pool)(r) for _ in range(r.randint(2, 4))]
+        n = r.choice([8, 20, 50])
+        recs = gen_records(r, n, sparse=r.chance(0.2), wide=r.chance(0.2))
+        fmt = r.choice(["dkvp", "json", "csvlite"])
+        text = {"dkvp": to_dkvp, "json": to_json, "csvlite": to_csv}[fmt](recs)
+        iflags = {"dkvp": [], "json": ["--ijson"], "csvlite": ["--icsvlite"]}[fmt]
+        args = ["mlr"] + iflags + r.choice([[], ["--ojson"]]) + chain_args(verbs) + ["in0.txt"]
+        yield {"kind": "race", "args": args, "files": {"in0.txt": text}, "cseed": r.randint(1, 1 << 40), "nconf": 5 if tier == "quick" else 8,
+               "batches": [1, 1, 2, 3, 5], "force_preempt": [2, 3, 5, 10, 30]}
+
+
 # ---------------------------------------------------------------- tail -f
 
 TAIL_VERBS = [
@@ -562,7 +606,7 @@ def seed_cases(rng, tier):
 
 def shrink_input(case):
     """Candidates with smaller inputs / shorter chains (generated kinds only)."""
-    if case.get("kind") not in ("chain", "termination", "seed", "fault", "hash"):
+    if case.get("kind") not in ("chain", "termination", "seed", "fault", "hash", "race"):
         return
     files = case.get("files") or {}
     for name, text in files.items():
